@@ -121,7 +121,14 @@ package stream
 // Whatever the destination connector replies (zero acks, surplus acks, foreign
 // positions), the worker does not index out of range, and it acks a message only
 // if it was filtered or the destination confirmed exactly its position.
+// Every ack the destination connector ever returned is either matched against a queued
+// message (one bytes.Equal per consumed ack) or still held in `acks`: acks that arrive
+// ahead of their message are kept across wake-ups, never dropped; more acks are fetched
+// only when none is left.
 //verif:func (*DestinationAckerNode).worker(n, ctx, signalChan, errChan)
+//verif:loop 0 invariant sumlen("Destination.Ack", 0) == count("bytes.Equal") + len(acks)
+//verif:loop 1 invariant sumlen("Destination.Ack", 0) == count("bytes.Equal") + len(acks)
+//verif:call[fetch-only-when-none-left] Destination.Ack requires len(acks) == 0
 //verif:call[ack-only-confirmed-or-filtered] (*DestinationAckerNode).handleAck requires arg1 == msg && (msg.filtered && arg2 == nil || !msg.filtered && result_of("bytes.Equal", 0) && since("(*DestinationAckerNode).handleAck", "bytes.Equal") == 0)
 
 // ---- SourceAckerNode (C04, C07): what is forwarded to the source ---------------------
@@ -144,6 +151,7 @@ package stream
 //verif:call[in-turn] Source.Ack requires called("(*Simple).Acquire") && !called("(*Simple).Release")
 //verif:call[nothing-after-a-failure] Source.Ack requires !deref(n).fail
 //verif:call[dlq-accepted-first] Source.Ack requires succeeded("(*DLQHandlerNode).Nack")
+//verif:call[dlq-asked-in-turn-and-not-after-a-failure] (*DLQHandlerNode).Nack requires called("(*Simple).Acquire") && !called("(*Simple).Release") && !deref(n).fail && count("(*DLQHandlerNode).Nack") == 0
 //verif:call[once] Source.Ack requires count("Source.Ack") == 0
 //verif:ensures[failure-latches] err != nil ==> deref(n).fail
 //verif:ensures[turn-released] called("(*SourceAckerNode).registerNackHandler$1$1")
@@ -234,3 +242,14 @@ package stream
 
 //verif:closure of (*FanoutNode).Run calling $2$2 (msg, nm) (err)
 //verif:call[branch-nack-reaches-original] (*Message).Nack requires arg0 == msg && arg1 == nm.Reason && arg2 == nm.NodeID
+
+// ---- SourceNode.stopGraceful (C06): the stop position is remembered with the flag ----
+// Source.Stop is asked once; the position it returns is kept in n.stop together with
+// the positionFetched flag, so a retried stop (the first injection timed out) injects
+// the SAME position; the control message always carries the remembered position.
+//verif:func (*SourceNode).stopGraceful(n, ctx, reason) (err)
+//verif:call[stop-the-connector-once] Source.Stop requires !n.stop.positionFetched && count("Source.Stop") == 0
+//verif:ensures[flag-implies-position-kept] called("Source.Stop") && succeeded("Source.Stop") ==> n.stop.positionFetched && n.stop.position == result_of("Source.Stop", 0)
+//verif:ensures[retry-keeps-the-position] old(n.stop.positionFetched) ==> n.stop.position == old(n.stop.position) && n.stop.positionFetched && !called("Source.Stop")
+//verif:call[inject-the-remembered-position] (*pubNodeBase).InjectControlMessage requires arg3.Position == n.stop.position && n.stop.positionFetched && arg2 == ControlMessageStopSourceNode
+//verif:ensures[stop-error-means-no-injection] called("Source.Stop") && !succeeded("Source.Stop") ==> err != nil && !called("(*pubNodeBase).InjectControlMessage") && !n.stop.positionFetched
